@@ -1,9 +1,54 @@
 (* C20 — operator lifecycle: startup first, fail-fast, cleanup last, bounded exit.
-   Only statements here; proofs in Proofs/Lifecycle.v; the model is Model/Lifecycle.v.
+   Only statements here; proofs in Proofs/Lifecycle.v and Proofs/LifecycleLive.v; the model is Model/Lifecycle.v.
    Every theorem quantifies over ALL label traces accepted by the model (all schedules, all fault positions,
-   all stop triggers at all moments, any number of watchers / workers / daemons). *)
+   all stop triggers at all moments, any number of watchers / workers / daemons / startup handlers and rounds).
+
+   CLAUSE AUDIT (statement + quantifier of properties.jsonl C20)
+   ---------------------------------------------------------------------------------------------------------------
+   clause                                             | covered by
+   ---------------------------------------------------+-----------------------------------------------------------
+   1 no API activity before all startup handlers      | FULL  C20_no_api_before_startup, C20_no_child_before_startup
+     have succeeded                                   |       (+ rounds: C20_startup_handler_failure_no_api)
+   2 a failed startup aborts the operator without any | FULL  C20_failed_startup_no_api (no Api anywhere, flags down),
+     API call                                         |       C20_failed_startup_aborts (on its way out in every
+                                                      |       continuation; left to itself it returns), Examples
+   3 ready flag only after startup                    | FULL  C20_ready_after_startup
+   4 ANY essential task fails (incl. watch stream /   | REFUTED+PARTIAL  C20_any_failure_stops_all_refuted (F10: a
+     worker) => the whole operator shuts down, does   |       failed Ensemble task leaves a quiescent, unreturned
+     not linger half-alive                            |       state) / for ROOT tasks and every stop trigger FULL:
+                                                      |       C20_shutdown_progress, C20_no_lingering,
+                                                      |       C20_shutdown_completes (+ C20_root_failure_stops_all)
+   5 ... or a stop is requested (flag, cancellation)  | FULL  C20_stop_flag_any_moment, C20_signal_any_moment,
+     at every moment incl. during startup             |       C20_root_done_during_startup, then clause 4's theorems
+                                                      |       (Cancel puts run_tasks into MCStopRoots: shutdown begun)
+   6 daemons are stopped                              | REFUTED+PARTIAL  C20_daemons_stopped_before_cleanup_refuted
+                                                      |       (F2001) / C20_everything_stopped_before_cleanup (every
+                                                      |       daemon the sweep asked is done or abandoned) +
+                                                      |       C20_daemons_stopped_before_cleanup_partial
+   7 the peering record is withdrawn                  | FULL under the guard the orchestrator ended by cancellation
+                                                      |       (its only normal end): C20_everything_stopped_before_cleanup
+                                                      |       (+ step-level C20_peering_withdrawn_partial); success of
+                                                      |       the final PATCH itself: monitored only (peering-not-withdrawn)
+   8 cleanup handlers run after everything else has   | FULL for roots + core: C20_cleanup_last; watchers, keep-alives,
+     stopped                                          |       workers under the same guard and asked daemons:
+                                                      |       C20_everything_stopped_before_cleanup; unasked daemons: F2001
+   9 the run call returns ...                         | FULL  C20_shutdown_completes / C20_maximal_internal_run_returns
+                                                      |       (relative to: cancelled user code terminates, no further
+                                                      |       environment events)
+   10 ... re-raising the failure                      | FULL (safety)  C20_returns_and_reraises; which of several failed
+                                                      |       roots is raised is set-iteration order in kopf: any of them
+   11 within the bounded grace periods                | PARTIAL  C20_bounded_exit (each grace period at most once),
+                                                      |       C20_internal_runs_bounded (at most mu s internal steps);
+                                                      |       the bound in virtual SECONDS: monitored only (slow-exit, slow-exit-during-startup)
+   quantifier every set of running daemons and       | all theorems: arbitrary Spawn labels; user code = oracle labels
+     in-flight handlers, every startup/cleanup outcome|
+   ---------------------------------------------------------------------------------------------------------------
+   Not covered: sync handlers in threads, ultimate_termination's SIGKILL, liveness endpoint / _command (not configured).
+   Model refutation that is NOT a recorded finding: the guard of clauses 7/8 — if the orchestrator itself dies by an
+   exception its Ensemble is left to the hung-tasks phase, i.e. after cleanup; no failure source for that exists in
+   the code (adjust_tasks only awaits toggles and task creation), so it is stated as a guard, not reported. *)
 From Coq Require Import List Bool Arith.
-From KV Require Import Model.Lifecycle Proofs.Lifecycle.
+From KV Require Import Model.Lifecycle Proofs.Lifecycle Proofs.LifecycleLive.
 Import ListNotations.
 
 (* No API request by any task before the startup activity succeeded and the flag was set ... *)
@@ -171,6 +216,96 @@ Example C20_stop_flag_mid_startup_hypotheses :
   end = true.
 Proof. exact mid_startup_hyps. Qed.
 Print Assumptions C20_stop_flag_mid_startup_hypotheses.
+
+(* ------------------------------------------------------------------ the shutdown completes (clauses 4, 5, 9, 11)
+   internal step = a member of internal_candidates s: what the operator does by itself (run_tasks' reactions, the
+   completion of cancelled / finishing tasks, the killer's sweep, the orchestrator stopping its Ensemble, the final
+   touch, the grace timeouts, the startup/cleanup task's own moves) — tied to the real operator by D:internal_notion.
+   shutdown_begun s = run_tasks is past its FIRST_COMPLETED wait, or some root task is done. *)
+
+(* progress: once the shutdown has begun the operator can always make a step by itself until run_tasks has returned *)
+Theorem C20_shutdown_progress : forall tr s, run init tr = Some s -> shutdown_begun s = true -> returned s = false ->
+  exists l s', In l (internal_candidates s) /\ step s l = Some s'.
+Proof. exact progress. Qed.
+Print Assumptions C20_shutdown_progress.
+
+(* never half-alive after a ROOT failure or a stop trigger (contrast: C20_any_failure_stops_all_refuted) *)
+Theorem C20_no_lingering : forall tr s, run init tr = Some s -> shutdown_begun s = true -> quiescent s = true -> returned s = true.
+Proof. exact no_lingering. Qed.
+Print Assumptions C20_no_lingering.
+
+(* the variant: only the creation of a task can increase it; every internal step strictly decreases it *)
+Theorem C20_measure_never_increases : forall s l s', (forall t b, l <> Spawn t b) -> step s l = Some s' -> mu s' <= mu s.
+Proof. exact mu_noninc. Qed.
+Print Assumptions C20_measure_never_increases.
+
+Theorem C20_measure_decreases : forall s l s', In l (internal_candidates s) -> step s l = Some s' -> mu s' < mu s.
+Proof. exact mu_decreases. Qed.
+Print Assumptions C20_measure_decreases.
+
+(* left to itself the operator reaches the return of run_tasks within mu s steps, from EVERY reachable state in which the
+   shutdown has begun *)
+Theorem C20_shutdown_completes : forall n tr s, run init tr = Some s -> shutdown_begun s = true -> mu s <= n ->
+  returned (drive n s) = true.
+Proof. exact shutdown_completes. Qed.
+Print Assumptions C20_shutdown_completes.
+
+(* ... in whatever order the internal steps are taken: at most mu s of them, and when nothing is left, it has returned *)
+Theorem C20_internal_runs_bounded : forall s tr s', iruns s tr s' -> length tr + mu s' <= mu s.
+Proof. exact internal_runs_bounded. Qed.
+Print Assumptions C20_internal_runs_bounded.
+
+Theorem C20_maximal_internal_run_returns : forall tr0 s tr s', run init tr0 = Some s -> shutdown_begun s = true ->
+  iruns s tr s' -> quiescent s' = true -> returned s' = true /\ length tr <= mu s.
+Proof. exact maximal_internal_run_returns. Qed.
+Print Assumptions C20_maximal_internal_run_returns.
+
+Example C20_shutdown_begun_nonvacuous :
+  match run init tr_root_failed with
+  | Some s => shutdown_begun s && negb (returned s) && negb (quiescent s) && (0 <? mu s) && returned (drive (mu s) s)
+  | None => false
+  end = true.
+Proof. exact ex_shutdown_begun. Qed.
+Print Assumptions C20_shutdown_begun_nonvacuous.
+
+(* a failed startup aborts the operator (clause 2): in every continuation it is on its way out, left to itself it
+   returns, and there is no API request anywhere in the run *)
+Theorem C20_failed_startup_aborts : forall tr s, run init tr = Some s -> In StartupFail tr ->
+  stopping s /\ returned (drive (mu s) s) = true /\ forall t, ~ In (Api t) tr.
+Proof. exact failed_startup_aborts. Qed.
+Print Assumptions C20_failed_startup_aborts.
+
+Example C20_failed_startup_aborts_nonvacuous :
+  match run init [StartupHandler 0 HPerm; StartupHandler 1 HTemp; StartupHandler 1 HOk; StartupFail] with
+  | Some s => negb (shutdown_begun s) && negb (returned s) && returned (drive (mu s) s)
+  | None => false
+  end = true.
+Proof. exact ex_failed_startup_stopping. Qed.
+Print Assumptions C20_failed_startup_aborts_nonvacuous.
+
+(* ------------------------------------------------------------------ what has stopped when cleanup begins (clauses 6-8) *)
+Theorem C20_everything_stopped_before_cleanup : forall pre post s, run init (pre ++ CleanupBegin :: post) = Some s ->
+  exists s0, run init pre = Some s0 /\
+    all_done (ph s0) other_roots = true /\ is_done (ph s0 TAuth) = true /\
+    (ph s0 (TRoot ROrch) = PDone OCancelled ->
+       (forall t, In t (spawned s0) -> is_ensemble t = true \/ is_worker t = true -> is_done (ph s0 t) = true) /\
+       (forall k, In (TKeepalive k) (spawned s0) -> mem_nat k (withdrawn s0) = true)) /\
+    (swept s0 = true -> forall d, In d (asked s0) -> is_done (ph s0 (TDaemon d)) = true \/ mem_nat d (abandoned s0) = true) /\
+    (forall t, is_done (ph s0 t) = true -> ph s t = ph s0 t /\ ~ In (Api t) post /\ forall c, ~ In (Spawn c t) post).
+Proof. exact everything_stopped_before_cleanup. Qed.
+Print Assumptions C20_everything_stopped_before_cleanup.
+
+Example C20_cleanup_point_nonvacuous :
+  nth_error tr_happy 32 = Some CleanupBegin /\
+  match run init tr_happy_pre with
+  | Some s0 =>
+      match ph s0 (TRoot ROrch) with PDone OCancelled => true | _ => false end && swept s0 &&
+      mem_task (TWatcher 0) (spawned s0) && mem_task (TWorker 0 0) (spawned s0) && mem_task (TDaemon 0) (spawned s0) &&
+      mem_nat 0 (asked s0) && is_done (ph s0 (TDaemon 0))
+  | None => false
+  end = true.
+Proof. exact ex_cleanup_point. Qed.
+Print Assumptions C20_cleanup_point_nonvacuous.
 
 (* Outside the single-trigger quantifier: stop flag, then cancellation while the roots are being stopped:
    run_tasks returns at once, with root tasks still alive. *)
